@@ -82,6 +82,11 @@ func NewEncryptedISO(f afero.File, data1 []byte, clearRegions bool) (*EncryptedI
 		return nil, fmt.Errorf("read unencrypted regions count failed: %w", err)
 	}
 
+	// the region map lives in the first sector; check the count before allocating by it
+	if hdr.Count < 2 || sizeBytes(binary.Size(hdr))+sizeBytes(hdr.Count)*sizeBytes(binary.Size(unencryptedRegion{})) > sectorSize {
+		return nil, fmt.Errorf("unexpected unencrypted regions count (%d)", hdr.Count)
+	}
+
 	unencryptedRegions := make([]unencryptedRegion, hdr.Count)
 	err = binary.Read(f, binary.BigEndian, unencryptedRegions)
 	if err != nil {
